@@ -240,7 +240,7 @@ type pfGen struct {
 	epoch int
 }
 
-const pfEpoch = 5
+const pfEpoch = 6
 
 func (g *pfGen) pick(ss []string) string { return ss[g.rng.Intn(len(ss))] }
 func (g *pfGen) chance(pct int) bool     { return g.rng.Intn(100) < pct }
@@ -2918,7 +2918,7 @@ func TestVerifPreflight(t *testing.T) {
 	counts := map[string]int{
 		"accepts": scale(2500, 40000), "codec": scale(2500, 40000), "decode": scale(1500, 20000), "unprim": scale(2500, 30000),
 		"peq": scale(4000, 60000), "annot": scale(2500, 30000), "gen": scale(2500, 40000), "vph": scale(4000, 80000),
-		"http": scale(8000, 120000), "e2e": scale(250, 4000), "params": scale(3000, 40000), "seq": scale(600, 4000),
+		"http": scale(8000, 120000), "e2e": scale(250, 4000), "params": scale(3000, 40000), "seq": scale(400, 4000),
 	}
 	if over {
 		// VERIF_CASES scales the whole-request stream; helpers follow proportionally
